@@ -77,7 +77,7 @@ def base_case(draw, tier, data_kind=None, depths=vs.DEPTHS_STREAM, min_chans=1, 
     eff = n - start if nsamps is None else nsamps
     gulp = draw(st.one_of(st.integers(1, eff + 3), st.integers(1, max(1, eff // 2))))
     return {"layout": lay, "start": start, "nsamps": nsamps, "gulp": gulp, "prior": draw(vs.prior_use(n)),
-            "default_names": draw(st.sampled_from([False, False, True])), "np_ints": draw(st.sampled_from([False, False, False, True])), "omit_defaults": draw(st.sampled_from([False, False, True])), "debug_log": draw(st.sampled_from([False, False, False, False, True])),
+            "default_names": draw(st.sampled_from([False, False, True])), "np_ints": draw(st.sampled_from([False, False, False, True])), "omit_defaults": draw(st.sampled_from([False, False, True])), "debug_log": draw(st.sampled_from([False, False, False, False, True])), "np_alloc": draw(st.sampled_from([False, False, False, True])),
             "fch1": draw(st.sampled_from([1400.0, 800.0, 1500.5])), "foff": draw(st.sampled_from([-1.0, -1.0, 1.0])) * draw(st.sampled_from([1.0, 4.0, 0.5, 10.0]))}  # either band orientation
 
 
@@ -97,7 +97,7 @@ class Setup:
         self.default_names = bool(case.get("default_names"))
         self.reader = lambda: vs.apply_prior_use(FilReader(self.paths), case.get("prior"))
         self.kw = vs.as_np_ints({"gulp": self.gulp, "start": self.start, "nsamps": self.nsamps, "quiet": True, "description": "v"}, case.get("np_ints"))
-        self.kw = vs.omit_defaults(self.kw, case.get("omit_defaults"), self.eff)
+        self.kw = vs.with_allocator(vs.omit_defaults(self.kw, case.get("omit_defaults"), self.eff), case.get("np_alloc"))
         self.big = dict(self.kw, gulp=self.eff + 7)
         self.ctxt = (f"N={self.N} nchans={self.nchans} nbits={self.nbits} split={self.lay['split']} start={self.start} "
                      f"nsamps={self.nsamps} gulp={self.gulp}")
